@@ -128,7 +128,7 @@ DirIdx(d) == CHOOSE j \in 1..3 : DirChain[j] = d
 IsBlob(o) == o \notin Manifests
 
 Macros == {"InitIndex", "InitIndexL", "MkdirAll", "MarkerEnsure", "BlobPut", "ManPut", "UpdIndex", "WriteIndex", "RefPut",
-           "TagDel", "ManDel", "RefDel", "DelEntries", "Close", "GcScan", "CopyM", "CopyB2", "ImpB",
+           "TagDel", "ManDel", "RefDel", "DelEntries", "Close", "GcScan", "CopyM", "Retag", "BlobDel", "CopyB2", "ImpB",
            "ImpM", "Import", "PutParts", "PutChild"}
 
 MarkerCreate ==
@@ -142,6 +142,9 @@ OpProg(sc) ==
                 [] sc.kind = "put_child" -> <<InsO("PutParts", sc.o)>> \o ManPutL("", sc.o, TRUE)
                 [] sc.kind = "tag_delete" -> <<Ins("Lock"), InsT("TagDel", sc.t), Ins("Unlock")>>
                 [] sc.kind = "man_delete" -> <<Ins("Lock"), InsO("ManDel", sc.o), Ins("Unlock")>>
+                [] sc.kind = "blob_delete" -> <<InsO("BlobDel", sc.o)>>              \* blob.go:BlobDelete = os.Remove
+                [] sc.kind = "retag" ->     \* ImageCopy inside one repository: nothing but the manifest is pushed
+                     <<Ins("GcLock"), [Ins("Retag") EXCEPT !.t = sc.t, !.o = sc.o], Ins("GcUnlock")>>
                 [] sc.kind \in {"copy", "copy_ref"} ->
                      <<Ins("GcLock"), CopyM(sc.t, sc.o, FALSE, sc.kind = "copy_ref"), Ins("GcUnlock")>>
                 [] sc.kind = "import" -> <<[Ins("Import") EXCEPT !.t = sc.t, !.o = sc.o]>>
@@ -223,6 +226,8 @@ Exp(h) ==
                  (IF kprogs \cup rprogs # {} THEN <<[Ins("Spawn") EXCEPT !.p = SetToSeq(kprogs \cup rprogs)], Ins("Wait")>>
                   ELSE <<>>)
                  \o (IF ~same THEN ManPutL(IF h.t # "" THEN h.t ELSE "", h.o, h.c) ELSE <<>>)
+    [] h.i = "BlobDel" -> IF h.o \in fs.cas THEN <<InsO("UnlinkBlob", h.o)>> ELSE <<Ins("Fail")>>   \* ENOENT
+    [] h.i = "Retag" -> IF HeadTag(h.t) /\ fs.index.tags[h.t] = h.o THEN <<>> ELSE ManPutL(h.t, h.o, FALSE)
     [] h.i = "CopyB2" -> IF h.o \in fs.cas THEN <<>> ELSE <<InsO("BlobPut", h.o)>>      \* BlobCopy: BlobHead first
     [] h.i = "ImpB" -> IF h.o \in fs.cas THEN <<>> ELSE <<InsO("BlobPut", h.o)>>        \* imageImportBlob
     [] h.i = "ImpM" -> IF HeadDig(h.o) THEN <<>> ELSE ManPutL(h.t, h.o, h.c)            \* finish handler: head, then put
@@ -261,10 +266,10 @@ Label(t, h) ==
     [] h.i = "RenameCas" -> <<"rename", CasCls(h.o), h.o>>
     [] h.i = "RenameIndex" -> <<"rename", "index", "">>
     [] h.i = "RenameMarker" -> <<"rename", "marker", "">>
-    [] h.i = "UnlinkCas" -> <<"unlink", CasCls(h.o), h.o>>
+    [] h.i \in {"UnlinkCas", "UnlinkBlob"} -> <<"unlink", CasCls(h.o), h.o>>
     [] OTHER -> <<"silent", "", "">>
 SysPrims == {"Mkdir", "TruncMarker", "WriteMarker", "CreatTmp", "WriteTmp", "RenameCas", "RenameIndex", "RenameMarker",
-             "UnlinkCas"}
+             "UnlinkCas", "UnlinkBlob"}
 
 SetThr(t, st) == [pr.thr EXCEPT ![t] = st]
 \* a goroutine that has returned leaves nothing behind
@@ -354,6 +359,9 @@ Do(t) ==
         /\ pr' = Fin([pr EXCEPT !.mod = TRUE, !.thr = SetThr(t, rest)]) /\ UNCHANGED ctl
      \/ /\ h.i = "RenameMarker"
         /\ fs' = [fs EXCEPT !.marker = "complete", !.tmps = RestrictTo(@, DOMAIN @ \ {pr.loc[t]})]
+        /\ pr' = Fin([pr EXCEPT !.thr = SetThr(t, rest)]) /\ UNCHANGED ctl
+     \/ /\ h.i = "UnlinkBlob" /\ h.o \in fs.cas      \* BlobDelete does not mark the repository as modified
+        /\ fs' = [fs EXCEPT !.cas = @ \ {h.o}]
         /\ pr' = Fin([pr EXCEPT !.thr = SetThr(t, rest)]) /\ UNCHANGED ctl
      \/ /\ h.i = "UnlinkCas"
         /\ fs' = [fs EXCEPT !.cas = @ \ {h.o}]
